@@ -94,6 +94,24 @@ def lookupPair (tbl : List ((Nat × Nat) × Rat)) (l r : Nat) : Rat :=
 def parseGroupScores (s : String) : Option (List (List Rat)) :=
   if s = "-" then some [] else (s.splitOn ";").mapM (parseList? parseRat?)
 
+/-- glue (not part of the proved model): does some round of the Z-method loop sort group candidates with EQUAL z keys?
+NumPy's argsort order on equal keys is unspecified (SIMD sorts), so such cases are compared relationally only. -/
+def zRoundHasTie (w thr : Rat) (pts : List P3) : Bool :=
+  let cand := pts.filter fun p => decide (thr ≤ p.2.2)
+  match splitGaps w cand with
+  | g1 :: g2 :: gs =>
+    let zs := (g1 :: g2 :: gs).map minZ
+    decide (zs.eraseDups.length < zs.length)
+  | _ => false
+
+def zLoopHasTie (w h : Rat) (zthr : Nat → Rat) (minz : Rat) : Nat → Nat → List P3 → List (Rat × Rat) → Bool
+  | 0, _, _, _ => false
+  | f + 1, k, pts, outl =>
+    let tie := zRoundHasTie w (zthr k) pts
+    let r := zRound w h (zthr k) pts outl
+    if r.1.isEmpty || (decide (zthr k ≤ minz) && r.2.2 == 0) then tie
+    else tie || zLoopHasTie w h zthr minz f (k + 1) r.1 r.2.1
+
 def dispatch (out inp : IO.FS.Stream) (fn : String) (args : List String) : M String := do
   match fn, args with
   | "computeRemoved", [red] =>
@@ -350,8 +368,11 @@ def dispatch (out inp : IO.FS.Stream) (fn : String) (args : List String) : M Str
     let h ← orErr (parseRat? h) "h"
     let ymin ← orErr (parseRat? ymin) "ymin"
     let thr ← orErr (parseList? parseRat? thr) "thr"
-    match zKnees xs ys zs w h ymin (fun k => thr[k]?.getD (thr.getLast?.getD 0)) thr.length with
-    | some ks => pure (showNats ks)
+    let zt := fun k => thr[k]?.getD (thr.getLast?.getD 0)
+    let pts : List P3 := xs.zip (ys.zip zs)
+    let tie := if xs.length < 4 || ymin == 1 then false else zLoopHasTie w h zt (minZ pts) thr.length 0 pts []
+    match zKnees xs ys zs w h ymin zt thr.length with
+    | some ks => pure (showNats ks ++ (if tie then " tie" else " notie"))
     | none => pure "none"
   | "elbowQ", [kind, xs, ys] =>
     let xs ← orErr (parseList? parseRat? xs) "xs"
